@@ -62,6 +62,7 @@ func runSelftest(args []string) int {
 	verif := fs.String("verif", "/verif", "verif dir")
 	only := fs.String("only", "", "only mutations whose name contains this")
 	par := fs.Int("j", 3, "parallel runs")
+	full := fs.Bool("full", false, "check the whole property for must-fail mutations too (default: only the units of the expected obligations)")
 	fs.Parse(args)
 	files, _ := filepath.Glob(filepath.Join(*verif, "selftest", "*", "*.json"))
 	sort.Strings(files)
@@ -142,8 +143,23 @@ func runSelftest(args []string) int {
 				}
 				overlay[path] = []byte(ns)
 			}
-			o := checkOpts{repo: *repo, verif: *verif, prop: m.Property, tier: "quick", timeoutS: 10, overlay: overlay, quiet: true,
+			o := checkOpts{repo: *repo, verif: *verif, prop: m.Property, tier: "quick", timeoutS: 10, overlay: overlay, quiet: true, skipUnclaimed: true,
 				workDir: filepath.Join(*verif, "work", "selftest", sanitize(m.Property+"_"+m.Name))}
+			// a must-fail mutation is decided by the units of the obligations it names: only those are generated and
+			// discharged (the whole property per mutation costs minutes for the package sweeps); -full turns this off
+			focus := ""
+			if !*full && len(m.ExpectFail) > 0 {
+				var units []string
+				for _, want := range m.ExpectFail {
+					if j := strings.Index(want, "/"); j > 0 {
+						units = append(units, want[:j])
+					}
+				}
+				if len(units) == len(m.ExpectFail) {
+					focus = strings.Join(units, "|")
+					o.only = focus
+				}
+			}
 			results, _, problems, err := runProperty(o)
 			if err != nil {
 				out[i].detail = "run failed: " + err.Error()
@@ -185,6 +201,11 @@ func runSelftest(args []string) int {
 				}
 			}
 			for n := range claimed {
+				if focus != "" {
+					if j := strings.Index(n, "/"); j < 0 || !matchOnly(n[:j], focus) {
+						continue // unit outside the focus: not generated on purpose
+					}
+				}
 				if !generated[n] {
 					failed = append(failed, n+" (not generated)")
 				}
